@@ -68,4 +68,23 @@ theorem zlib_naming : ZlibNaming (Spec.nameOr Model.genEnumDecode "ENUM_ELFCOMPR
   rw [nameOr_gen]
   exact zlibNaming_of_table chtype_table_ok
 
+/-! ### the two names the object dispatch of the whole-file theorems relies on -/
+
+theorem strtab_tables_ok :
+    shTypeTables.all (fun tid => pairOk (tableOf tid) "SHT_STRTAB" 3) = true := by decide +kernel
+theorem interp_tables_ok :
+    pTypeTables.all (fun tid => pairOk (tableOf tid) "PT_INTERP" Spec.C02.PT_INTERP) = true := by decide +kernel
+
+/-- every `sh_type` decoder of /repo reports code 3 as `SHT_STRTAB` (and nothing else so) -/
+theorem strtab_naming (tid : String) (h : tid ∈ shTypeTables) (n : Nat) :
+    Spec.nameOr Model.genEnumDecode tid n = .str "SHT_STRTAB" ↔ n = 3 := by
+  rw [nameOr_gen]
+  exact decOfTable_name_iff (List.all_eq_true.1 strtab_tables_ok tid h) n
+
+/-- every `p_type` decoder of /repo reports code 3 as `PT_INTERP` (and nothing else so) -/
+theorem interp_naming (tid : String) (h : tid ∈ pTypeTables) (n : Nat) :
+    Spec.nameOr Model.genEnumDecode tid n = .str "PT_INTERP" ↔ n = Spec.C02.PT_INTERP := by
+  rw [nameOr_gen]
+  exact decOfTable_name_iff (List.all_eq_true.1 interp_tables_ok tid h) n
+
 end PyElf.Props.TieC02
